@@ -302,6 +302,16 @@ def _separator_in_quoted(model):
     return bool(separator and model.get('report_uri') and separator in model['report_uri'])
 
 
+def _slash_in_macro(model):
+    """An SPF a / mx mechanism whose domain-spec holds '/' as a macro delimiter (RFC 7208 7.1 lists it): the domain is
+    followed by an optional '/' cidr-length, and a parser that cuts at the first '/' cuts inside the macro braces."""
+    import re  # pylint: disable=import-outside-toplevel
+    if model['type'] != 'SPF':
+        return False
+    return any(term.get('kind') in ('a', 'mx') and term.get('domain') and re.search(r'%\{[^}]*/[^}]*\}', term['domain'])
+               for term in model['terms'])
+
+
 def _csp_locus(type_name, model, cls):
     """For a CSP policy whose canonical spelling misbehaves: the first directive that misbehaves on its own."""
     for directive in model['directives']:
@@ -318,6 +328,8 @@ def _check_canonical(type_name, model, cls, findings):
     canon = textgen.canonical(model)
     obj = build(type_name, model)
     suffix = ':separator-in-quoted-string' if _separator_in_quoted(model) else ''
+    if _slash_in_macro(model):
+        suffix = ':slash-delimiter-in-macro'
     try:
         composed = bytes(obj.compose())
     except Exception as e:  # pylint: disable=broad-except
